@@ -60,7 +60,7 @@ func c13(e *Env) {
 		return
 	}
 	g := sp.g
-	xs := e.expandingSym()
+	xs := e.xsym()
 	// placeholder constants
 	parentPH, rootPH := "", ""
 	if k, ok := p.SSAPkgs[core.LibPkgs[0]].Members["parentDirPlaceHolder"].(*ssa.NamedConst); ok {
@@ -135,7 +135,7 @@ func c13(e *Env) {
 	// ---- R3
 	ob3 := r.Ob("R3", "finalize:declared-destination", "a declared output is renamed to exactly FileIP.Path(x), from <temp dir>/<TempPath(x)>")
 	for _, n := range sp.declRename {
-		src, dst := e.argSym(n, 0), e.argSym(n, 1)
+		src, dst := e.xargSym(n, 0), e.xargSym(n, 1)
 		fl := src.Flat()
 		ok := len(fl) == 3 && isTempDirRoot(fl[0]) && fl[1].Op == "lit" && fl[1].Lit == "/" && isCallSym(fl[2], fnTempPath) && isCallSym(dst, fnPath) &&
 			fl[2].Args[0].String() == dst.Args[0].String()
@@ -151,7 +151,7 @@ func c13(e *Env) {
 	)
 	found4 := false
 	for _, n := range g.Select(isMkdir) {
-		s := e.argSym(n, 0)
+		s := e.xargSym(n, 0)
 		str := s.String()
 		if !strings.Contains(str, fnTempDir+"($t)+\"/\"+") || !(strings.Contains(str, "(*FileIP).TempDir(") || strings.Contains(str, "Dir("+fnTempPath)) {
 			continue
@@ -196,7 +196,7 @@ func c13(e *Env) {
 	finalDirExit := map[*core.Node]bool{}
 	var cand []string
 	for _, n := range g.Select(isMkdir) {
-		s := e.argSym(n, 0)
+		s := e.xargSym(n, 0)
 		if inCallback(n) || !isCallSym(s, "path/filepath.Dir") {
 			continue
 		}
@@ -280,151 +280,6 @@ func (e *Env) noCutsetTrim(ob *core.Obligation, fn *ssa.Function) {
 }
 
 func (e *Env) c13Routing() {
-	r := e.R
-	fi := e.formatter()
-	ob := func(k, d string) *core.Obligation { return r.Ob("R2", "formatter[arm "+k+"]", d) }
-	if len(fi.problems) > 0 {
-		ob("anchors", "formatter resolved").Unknown("-", strings.Join(fi.problems, "; "))
-		return
-	}
-	where := func(alt armAlt) string { return e.P.InstrPos(alt.pred.Instrs[len(alt.pred.Instrs)-1]) }
-	chk := func(label, desc string, pred func(s *core.Sym, str string) (bool, string)) {
-		o := ob(label, desc)
-		alts := fi.arms[label]
-		if len(alts) == 0 {
-			o.Fail(core.FuncName(fi.fn), "no arm for placeholder type \""+label+"\"")
-			return
-		}
-		for _, alt := range alts {
-			ok, why := pred(alt.sym, alt.sym.String())
-			o.Check(ok, where(alt), trunc(alt.sym.String(), 110), why)
-		}
-	}
-	chk("o", "{o:} → encoded temp path: replaceParentDirs(applyModifiers(TempPath(out)))", func(s *core.Sym, str string) (bool, string) {
-		cs := s.Calls()
-		if !cs[fnTempPath] || cs[fnPath] || cs[fnFifoPath] {
-			return false, "not rooted in TempPath only: " + trunc(str, 140)
-		}
-		if !cs["replaceParentDirsWithPlaceholder"] && !cs["strings.ReplaceAll"] {
-			return false, "the ../ of a path produced by modifiers is not encoded again: " + trunc(str, 140)
-		}
-		return true, ""
-	})
-	chk("os", "{os:} → FifoPath(out), with the parent-dir prefix unless basename is requested", func(s *core.Sym, str string) (bool, string) {
-		cs := s.Calls()
-		if !cs[fnFifoPath] || cs[fnPath] || cs[fnTempPath] {
-			return false, "a streaming output placeholder is not the FIFO path: " + trunc(str, 140)
-		}
-		return true, ""
-	})
-	// every os/i alternative without the prefix must be guarded by the basename test
-	prefixGuard := func(label string) {
-		o := ob(label+":parent-prefix", "the path handed to the command is prefixed with ../ (the command runs inside the temp dir) unless the basename modifier is present")
-		for _, alt := range fi.arms[label] {
-			str := alt.sym.String()
-			if strings.HasPrefix(str, "strings.Join(") {
-				continue // join arm: checked by C18
-			}
-			hasPrefix := strings.HasPrefix(str, "prependParentDirPath(")
-			if hasPrefix {
-				o.OK(where(alt), "prefixed")
-				continue
-			}
-			// unprefixed alternative: allowed only on the basename branch: the edge comes from a block that tests strInSlice("basename", ...)
-			gs := ""
-			if len(alt.pred.Instrs) > 0 {
-				gs = guardsOf(e.symbolizer(), fi.fn, alt.pred.Instrs[len(alt.pred.Instrs)-1])
-				if iff, ok := alt.pred.Instrs[len(alt.pred.Instrs)-1].(*ssa.If); ok {
-					gs += " && " + e.symbolizer().InFunc(fi.fn, iff.Cond).String()
-				}
-			}
-			o.Check(strings.Contains(gs, "\"basename\""), where(alt), "unprefixed only under the basename test", "the path "+trunc(str, 120)+" reaches the command without the ../ prefix although the command runs inside the temp dir")
-		}
-	}
-	chk("i", "{i:} → Path(in), or FifoPath(in) when the in-IP streams", func(s *core.Sym, str string) (bool, string) {
-		if strings.HasPrefix(str, "strings.Join(") {
-			return true, ""
-		}
-		cs := s.Calls()
-		if cs[fnTempPath] {
-			return false, "an input placeholder is routed through TempPath: " + trunc(str, 140)
-		}
-		if !cs[fnPath] || !cs[fnFifoPath] {
-			return false, "an input is not Path() / FifoPath() depending on the streaming flag: " + trunc(str, 140)
-		}
-		return true, ""
-	})
-	prefixGuard("os")
-	prefixGuard("i")
-	// stream choice depends on the streaming flag of the in-IP
-	oS := ob("i:stream-choice", "FifoPath is chosen exactly when the in-IP's streaming flag is set")
-	a := e.anchors()
-	found := false
-	for _, b := range fi.fn.Blocks {
-		iff, ok := b.Instrs[len(b.Instrs)-1].(*ssa.If)
-		if !ok || fieldOfLoad(iff.Cond) != a.streamFld {
-			continue
-		}
-		found = true
-		t, f := b.Succs[0], b.Succs[1]
-		callsIn := func(bb *ssa.BasicBlock, name string) bool {
-			for _, in := range bb.Instrs {
-				if c, ok := in.(*ssa.Call); ok && c.Call.StaticCallee() != nil && core.FuncName(c.Call.StaticCallee()) == name {
-					return true
-				}
-			}
-			return false
-		}
-		oS.Check(callsIn(t, fnFifoPath) && callsIn(f, fnPath) && !callsIn(t, fnPath), e.where(iff), "doStream ⇒ FifoPath, else Path", "the streaming flag does not select FifoPath (true) / Path (false)")
-	}
-	if !found {
-		oS.Fail(core.FuncName(fi.fn), "the formatter does not look at the in-IP's streaming flag")
-	}
-	// the prefix function
-	oP := r.Ob("R2", "prependParentDirPath", "the parent-dir prefix function returns \"../\"+p for relative p and p unchanged for absolute p")
-	pp := e.P.Func("prependParentDirPath")
-	if pp == nil {
-		oP.Unknown("-", "not found")
-		return
-	}
-	gp := e.XG(pp)
-	if gp == nil {
-		return
-	}
-	sy := e.symbolizer()
-	var rel, abs []string
-	for _, n := range gp.Nodes {
-		if n.Kind != core.KRootRet {
-			continue
-		}
-		rt := n.Instr.(*ssa.Return)
-		s := sy.InFunc(pp, rt.Results[0])
-		if s.Op == "param" {
-			abs = append(abs, gp.Where(n))
-		} else if fl := s.Flat(); len(fl) == 2 && fl[0].Op == "lit" && fl[0].Lit == "../" && fl[1].Op == "param" {
-			rel = append(rel, gp.Where(n))
-		} else {
-			oP.Fail(gp.Where(n), "returns "+s.String())
-		}
-	}
-	// which return is taken for an absolute path: scenario p[0] == '/'
-	okSel := false
-	for _, n := range gp.Nodes {
-		if ix, ok := n.Instr.(*ssa.Index); ok {
-			_ = ix
-			resAbs := gp.Run(core.Scenario{Start: n, Result: core.IntAV('/')})
-			resRel := gp.Run(core.Scenario{Start: n, Result: core.IntAV('a')})
-			retParam := func(m *core.Node) bool {
-				if m.Kind != core.KRootRet {
-					return false
-				}
-				return sy.InFunc(pp, m.Instr.(*ssa.Return).Results[0]).Op == "param"
-			}
-			retPref := func(m *core.Node) bool { return m.Kind == core.KRootRet && !retParam(m) }
-			if resAbs.Reaches(retPref) == nil && resAbs.Reaches(retParam) != nil && resRel.Reaches(retParam) == nil && resRel.Reaches(retPref) != nil {
-				okSel = true
-			}
-		}
-	}
-	oP.Check(len(rel) == 1 && len(abs) == 1 && okSel, core.FuncName(pp), "p[0]=='/' ⇒ p ; else \"../\"+p", fmt.Sprintf("relative returns %d, absolute returns %d, selection by the first byte being '/': %v", len(rel), len(abs), okSel))
+	e.fmtArmO("R2")
+	e.fmtRouting("R2")
 }
